@@ -13,6 +13,7 @@ use std::panic::{catch_unwind, AssertUnwindSafe};
 
 mod gen_keys;
 mod seq;
+mod kbiso;
 use gen_keys::{key_index, ALL_KEYS};
 
 pub fn guard<T>(f: impl FnOnce() -> T) -> Option<T> {
@@ -725,7 +726,9 @@ fn main() {
         ("dump", Some("ps2")) => dump_ps2(),
         ("dump", Some("event")) => dump_event(),
         ("seq", _) => seq::main(&args[2..]),
+        ("replay", Some("kbd")) => kbiso::replay(&args[3]),
         ("replay", _) => replay(&args[2..]),
+        ("kbiso", _) => kbiso::main(&args[2..]),
         _ => {
             eprintln!("{}", usage);
             std::process::exit(2);
